@@ -4,6 +4,7 @@ Model: `negotiate` (Model/Block.lean) + the RFC wire length (Spec/Wire.lean).
 `Consts.blockOptionsMaxLength` is re-read from the source on every run.
 -/
 import CoapLite.Lemmas.BlockFits
+import CoapLite.Lemmas.BlockFitsRange
 import CoapLite.Lemmas.Shape.Block
 import CoapLite.Lemmas.Shape.BlockValue
 import CoapLite.Lemmas.Shape.Request
@@ -89,6 +90,51 @@ theorem followup_fits (p : Packet) (lb : Option BlockValue) (M size : Nat) (b b'
     (hc : chunk.length ≤ b.size) (htok : tok.length ≤ 8) (hptok : p.token.length ≤ 8) :
     wireLen (toMsg { (p.setOption block2Num [bs]) with payload := chunk, token := tok }) ≤ M :=
   Block.followup_fits p lb M size b b' bs chunk tok hs hk hg hlb hsz hneg h16 hb' hbs hc htok hptok
+
+/-- … stated over the property's OWN range, with no hypothesis about the reserved budget: the message
+actually sent is the application's reply `p` with the token `tok` of the request being answered, so
+its non-payload overhead is `(size − |payload|) − |p.token| + |tok|`; whenever the budget is at least
+that overhead plus 28, the block fits. (When the budget computed with the 8-byte token reserve
+falls below 16, the handler uses the minimum block size 16 – `negotiate_small_budget` – and
+28 = 12 + 16 covers it.) -/
+theorem followup_fits_over_the_range (p : Packet) (lb : Option BlockValue) (M size : Nat) (b b' : BlockValue)
+    (bs chunk tok : Bytes)
+    (hs : p.options.Sorted) (hk : ∀ kv ∈ p.options, kv.1 ≤ 65535)
+    (hg : p.getOption block2Num = none)
+    (hlb : ∀ r, lb = some r → BvOk r)
+    (hsz : computeMessageSize p = .ok size)
+    (hneg : negotiate lb (size + tokenReserve p) p.payload.length M = .ok (some b))
+    (hrange : (size - p.payload.length) + tok.length + 28 ≤ M + p.token.length)
+    (hb' : BvOk b') (hbs : b'.enc = .ok bs)
+    (hc : chunk.length ≤ b.size) (htok : tok.length ≤ 8) (hptok : p.token.length ≤ 8) :
+    wireLen (toMsg { (p.setOption block2Num [bs]) with payload := chunk, token := tok }) ≤ M :=
+  Block.followup_fits_range p lb M size b b' bs chunk tok hs hk hg hlb hsz hneg hrange hb' hbs hc htok hptok
+
+/-- ACKNOWLEDGING AN UPLOAD BLOCK: `p` is the upload request as received – it carries one Block1 value
+`v0` among its (flattened) options –, `b` the block the handler acknowledges it with, `q` the client's
+NEXT upload block: the same message with the Block1 value replaced by `v` (any block number, ≤ 3
+bytes) and a payload of at most the acknowledged size. Over the property's range it encodes within
+the configured maximum message size. -/
+theorem upload_next_block_fits (p q : Packet) (pre post : List (Nat × Bytes)) (v0 v : Bytes)
+    (rb b : BlockValue) (M size : Nat)
+    (hp : p.options.flatten = pre ++ (block1Num, v0) :: post)
+    (hq : q.options.flatten = pre ++ (block1Num, v) :: post)
+    (hqt : q.token = p.token)
+    (hv0 : v0.length ≤ 3) (hv : v.length ≤ 3)
+    (hrb : BvOk rb) (hsz : computeMessageSize p = .ok size)
+    (hneg : negotiate (some rb) size p.payload.length M = .ok (some b))
+    (h16 : 16 ≤ blockBudget size p.payload.length M)
+    (hc : q.payload.length ≤ b.size) :
+    wireLen (toMsg q) ≤ M :=
+  Block.upload_next_block_fits p q pre post v0 v rb b M size hp hq hqt hv0 hv hrb hsz hneg h16 hc
+
+/-- a response the handler leaves unfragmented – decided, as `coreResponse` does, with the token
+reserve – fits the budget -/
+theorem unfragmented_fits_reserved (p : Packet) (M size : Nat)
+    (hsz : computeMessageSize p = .ok size)
+    (hneg : negotiate none (size + tokenReserve p) p.payload.length M = .ok none) :
+    wireLen (toMsg p) ≤ M :=
+  Block.unfragmented_fits_reserved p M size hsz hneg
 
 theorem token_reserve (p : Packet) : tokenReserve p = 8 - p.token.length := by
   unfold tokenReserve; rfl
